@@ -170,36 +170,66 @@ pub fn run_ops(fsts: &[&[u8]], l: usize) -> Result<(u64, i64), String> {
     .and_then(|x| x)
 }
 
-fn ladder_fst(n: u64, variant: u64) -> Vec<u8> {
-    // 8-byte decimal keys; variant v keeps the keys whose index is not
-    // divisible by (v+2), so that the inputs of an operation overlap partially
+/// Key i of the ladder of the given shape. Shape 0: 8-byte decimal keys
+/// (fan-out <= 10). Shape 1: 3-byte keys [i/2560, 0x20 + (i/40)%64, 0x30 + i%40]:
+/// a root of up to 256 transitions, below it distinct 64-wide nodes, below
+/// those distinct 40-wide nodes (N/40 distinct wide non-root nodes).
+fn ladder_key(i: u64, shape: u64, out: &mut Vec<u8>) {
+    out.clear();
+    if shape == 0 {
+        out.extend_from_slice(format!("{:08}", i).as_bytes());
+    } else {
+        out.extend_from_slice(&[(i / 2560) as u8, 0x20 + ((i / 40) % 64) as u8, 0x30 + (i % 40) as u8]);
+    }
+}
+
+fn ladder_fst(n: u64, variant: u64, shape: u64) -> Vec<u8> {
+    // variant v keeps the keys whose index is not divisible by (v+2), so
+    // that the inputs of an operation overlap partially
     let mut b = raw::Builder::new(Vec::with_capacity(1 << 20)).unwrap();
+    let mut k = vec![];
     for i in 0..n {
         if variant > 0 && i % (variant + 2) == 0 {
             continue;
         }
-        b.insert(format!("{:08}", i), i.wrapping_mul(0x9E37_79B9_7F4A_7C15) >> 20).unwrap();
+        ladder_key(i, shape, &mut k);
+        b.insert(&k, i.wrapping_mul(0x9E37_79B9_7F4A_7C15) >> 20).unwrap();
     }
     b.into_inner().unwrap()
 }
 
 /// The keys of the ladder with index parity `par` (disjoint halves).
-fn ladder_part(n: u64, par: u64) -> Vec<u8> {
+fn ladder_part(n: u64, par: u64, shape: u64) -> Vec<u8> {
     let mut b = raw::Builder::new(Vec::with_capacity(1 << 20)).unwrap();
+    let mut k = vec![];
     for i in 0..n {
         if i % 2 == par {
-            b.insert(format!("{:08}", i), i).unwrap();
+            ladder_key(i, shape, &mut k);
+            b.insert(&k, if shape == 0 { i } else { i.wrapping_mul(0x9E37_79B9_7F4A_7C15) >> 30 }).unwrap();
         }
     }
     b.into_inner().unwrap()
 }
 
+fn ladder_probes(shape: u64) -> (Vec<Key>, Key) {
+    if shape == 0 {
+        (vec![b"00000500".to_vec(), b"0000050".to_vec(), b"99999999".to_vec(), b"".to_vec()], b"00005000".to_vec())
+    } else {
+        (vec![vec![1, 0x21, 0x31], vec![1, 0x21], vec![0xff, 0x5f, 0x57], vec![0, 0x20, 0x30], vec![3, 0x10, 0x30], vec![]], vec![1, 0x30, 0x40])
+    }
+}
+
 pub fn replay(case: &Value) -> Result<String, String> {
     if let Some(n) = case["ladder_n"].as_u64() {
         let k = case["k"].as_u64().unwrap_or(1) as usize;
+        let shape = case["shape"].as_u64().unwrap_or(0);
+        let (probes, bound) = ladder_probes(shape);
+        if k == 0 {
+            return run_zero_alloc(&ladder_fst(n, 0, shape), &probes).map(|c| format!("{} calls without allocation", c));
+        }
         if k >= 100 {
-            let all = ladder_fst(n, 0);
-            let (e, o) = (ladder_part(n, 0), ladder_part(n, 1));
+            let all = ladder_fst(n, 0, shape);
+            let (e, o) = (ladder_part(n, 0, shape), ladder_part(n, 1, shape));
             let refs: Vec<&[u8]> = match k {
                 102 => vec![&all[..], &all[..]],
                 103 => vec![&all[..], &all[..], &all[..]],
@@ -209,9 +239,9 @@ pub fn replay(case: &Value) -> Result<String, String> {
             };
             return run_ops(&refs, 8).map(|(c, m)| format!("{} items, max extra heap {}", c, m));
         }
-        let fsts: Vec<Vec<u8>> = (0..k as u64).map(|v| ladder_fst(n, v)).collect();
+        let fsts: Vec<Vec<u8>> = (0..k as u64).map(|v| ladder_fst(n, v, shape)).collect();
         if k == 1 {
-            return run_streams(&fsts[0], 8, &[b"00005000".to_vec()]).map(|(c, m)| format!("{} items, max extra heap {}", c, m));
+            return run_streams(&fsts[0], 8, &[bound]).map(|(c, m)| format!("{} items, max extra heap {}", c, m));
         }
         let refs: Vec<&[u8]> = fsts.iter().map(|f| &f[..]).collect();
         return run_ops(&refs, 8).map(|(c, m)| format!("{} items, max extra heap {}", c, m));
@@ -231,7 +261,7 @@ pub fn replay(case: &Value) -> Result<String, String> {
 pub fn plan(tier: Tier) -> Plan {
     let mut p = Plan::new("C14", "exploration");
     let thorough = tier.thorough();
-    p.rule = "counting allocator, per-thread. (1) exhaustive in small scopes: for every FST of all subsets of U_ab3 and U_raw2 (values 3i+1), of the fan-out families and of the 256-byte label family: (a) Fst::new/Map::new/Set::new over borrowed bytes and every get/contains_key/contains of the probe closure perform ZERO allocations (allocation count); (b) stream(), every range (all kind pairs x bound keys of length <= 2; large sets <= 1) and three automaton searches: live heap after EVERY next() <= heap before construction + 256 + 256*(L+2) + 4*(L+16); (c) union/intersection/difference/symmetric_difference over k = 2..4 FST-backed streams (the FST, its even- and odd-indexed halves, itself): live heap after every next() <= before + 256 + k*(stream bound + 2*max(L,64) + 512). (2) finite ladder (not exhaustive): FSTs of N = 1e4, 1e5 (thorough 1e6) 8-byte keys: full stream/range/search, k = 2..8 way operations over partially overlapping FSTs, and operations over 2-4 identical and over disjoint FSTs (long runs in which nothing is emitted): max extra heap identical (+-256 B) for all N. non-trivial = traversals yielding >= 2 items".into();
+    p.rule = "counting allocator, per-thread. (1) exhaustive in small scopes: for every FST of all subsets of U_ab3 and U_raw2 (values 3i+1), of the fan-out families and of the 256-byte label family: (a) Fst::new/Map::new/Set::new over borrowed bytes and every get/contains_key/contains of the probe closure perform ZERO allocations (allocation count); (b) stream(), every range (all kind pairs x bound keys of length <= 2; large sets <= 1) and three automaton searches: live heap after EVERY next() <= heap before construction + 256 + 256*(L+2) + 4*(L+16); (c) union/intersection/difference/symmetric_difference over k = 2..4 FST-backed streams (the FST, its even- and odd-indexed halves, itself): live heap after every next() <= before + 256 + k*(stream bound + 2*max(L,64) + 512). (2) finite ladder (not exhaustive): FSTs of N = 1e4, 1e5 (thorough 1e6) 8-byte keys: full stream/range/search, k = 2..8 way operations over partially overlapping FSTs, and operations over 2-4 identical and over disjoint FSTs (long runs in which nothing is emitted): max extra heap identical (+-256 B) for all N; the same on a wide-node ladder (3-byte keys: root of up to 256 transitions, N/40 distinct non-root nodes of 64 and 40 transitions; N = 10240, 102400, 655360 - the last one a dense root in a file > 64 KiB), with zero-allocation open/lookups on each. non-trivial = traversals yielding >= 2 items".into();
     p.assumptions = vec![
         "'for all N' beyond the ladder is not decided; transient per-item allocations that are freed again do not violate the property as stated".into(),
         "memory of user-supplied streams is outside the property".into(),
@@ -327,24 +357,27 @@ pub fn plan(tier: Tier) -> Plan {
     }));
     // ladder
     let ns: Vec<u64> = if thorough { vec![10_000, 100_000, 1_000_000] } else { vec![10_000, 100_000] };
+    let ns_wide: Vec<u64> = vec![10_240, 102_400, 655_360];
     let table: Arc<Mutex<BTreeMap<(usize, u64), i64>>> = Arc::new(Mutex::new(BTreeMap::new()));
-    for &n in &ns {
+    for (shape, n) in ns.iter().map(|&n| (0u64, n)).chain(ns_wide.iter().map(|&n| (1u64, n))) {
         let table = table.clone();
-        p.units.push(unit("ladder-(finite-family)", format!("ladder N={}", n), move |st, rep| {
-            let fsts: Vec<Vec<u8>> = (0..8u64).map(|v| ladder_fst(n, v)).collect();
-            match run_zero_alloc(&fsts[0], &[b"00000500".to_vec(), b"0000050".to_vec(), b"99999999".to_vec(), b"".to_vec()]) {
+        let sh = shape as usize * 1000;
+        p.units.push(unit(if shape == 0 { "ladder-(finite-family)" } else { "wide-node-ladder-(finite-family)" }, format!("ladder shape {} N={}", shape, n), move |st, rep| {
+            let fsts: Vec<Vec<u8>> = (0..8u64).map(|v| ladder_fst(n, v, shape)).collect();
+            let (probes, bound) = ladder_probes(shape);
+            match run_zero_alloc(&fsts[0], &probes) {
                 Ok(c) => st.evals += c,
-                Err(msg) => rep.violation(format!("ladder alloc N={}", n), msg, json!({"ladder_n": n, "k": 1})),
+                Err(msg) => rep.violation(format!("ladder alloc shape {} N={}", shape, n), msg, json!({"ladder_n": n, "k": 0, "shape": shape})),
             }
-            match run_streams(&fsts[0], 8, &[b"00005000".to_vec()]) {
-                Ok((c, m)) => { st.evals += c; st.states += c; st.transitions += c; st.nontrivial += 1; st.count("ladder_points", 1); table.lock().unwrap().insert((1, n), m); }
-                Err(msg) => rep.violation(format!("ladder stream N={}", n), msg, json!({"ladder_n": n, "k": 1})),
+            match run_streams(&fsts[0], 8, &[bound]) {
+                Ok((c, m)) => { st.evals += c; st.states += c; st.transitions += c; st.nontrivial += 1; st.count("ladder_points", 1); table.lock().unwrap().insert((sh + 1, n), m); }
+                Err(msg) => rep.violation(format!("ladder stream shape {} N={}", shape, n), msg, json!({"ladder_n": n, "k": 1, "shape": shape})),
             }
             // inputs for which an operation emits nothing for long runs:
             // identical FSTs (symmetric difference of an even number, difference)
             // and disjoint FSTs (intersection)
-            let evens = ladder_part(n, 0);
-            let odds = ladder_part(n, 1);
+            let evens = ladder_part(n, 0, shape);
+            let odds = ladder_part(n, 1, shape);
             for (tag, refs) in [
                 (102usize, vec![&fsts[0][..], &fsts[0][..]]),
                 (104, vec![&fsts[0][..], &fsts[0][..], &fsts[0][..], &fsts[0][..]]),
@@ -353,15 +386,15 @@ pub fn plan(tier: Tier) -> Plan {
                 (203, vec![&evens[..], &odds[..], &evens[..]]),
             ] {
                 match run_ops(&refs, 8) {
-                    Ok((c, m)) => { st.evals += c; st.states += c; st.transitions += c; st.count("ladder_points", 1); table.lock().unwrap().insert((tag, n), m); }
-                    Err(msg) => rep.violation(format!("ladder ops case {} N={}", tag, n), msg, json!({"ladder_n": n, "k": tag})),
+                    Ok((c, m)) => { st.evals += c; st.states += c; st.transitions += c; st.count("ladder_points", 1); table.lock().unwrap().insert((sh + tag, n), m); }
+                    Err(msg) => rep.violation(format!("ladder ops case {} shape {} N={}", tag, shape, n), msg, json!({"ladder_n": n, "k": tag, "shape": shape})),
                 }
             }
             for k in 2..=8usize {
                 let refs: Vec<&[u8]> = fsts[..k].iter().map(|f| &f[..]).collect();
                 match run_ops(&refs, 8) {
-                    Ok((c, m)) => { st.evals += c; st.states += c; st.transitions += c; st.count("ladder_points", 1); table.lock().unwrap().insert((k, n), m); }
-                    Err(msg) => rep.violation(format!("ladder ops k={} N={}", k, n), msg, json!({"ladder_n": n, "k": k})),
+                    Ok((c, m)) => { st.evals += c; st.states += c; st.transitions += c; st.count("ladder_points", 1); table.lock().unwrap().insert((sh + k, n), m); }
+                    Err(msg) => rep.violation(format!("ladder ops k={} shape {} N={}", k, shape, n), msg, json!({"ladder_n": n, "k": k, "shape": shape})),
                 }
             }
         }));
@@ -369,12 +402,14 @@ pub fn plan(tier: Tier) -> Plan {
     let ns2 = ns.clone();
     p.finish = Some(Box::new(move |st, rep| {
         let t = table.lock().unwrap();
-        st.samples.push(json!({"ladder_max_extra_heap": t.iter().map(|((k, n), v)| json!({"k_streams": k, "N": n, "bytes": v})).collect::<Vec<_>>()}));
-        for k in (1..=8usize).chain([102, 103, 104, 202, 203]) {
-            for w in ns2.windows(2) {
-                if let (Some(a), Some(b)) = (t.get(&(k, w[0])), t.get(&(k, w[1]))) {
-                    if (a - b).abs() > 256 {
-                        rep.violation(format!("ladder growth k={} N={}..{}", k, w[0], w[1]), format!("extra heap of a traversal over k={} inputs is {} bytes for N={} but {} for N={}", k, a, w[0], b, w[1]), json!({"ladder_n": w[1], "k": k}));
+        st.samples.push(json!({"ladder_max_extra_heap": t.iter().map(|((k, n), v)| json!({"shape": k / 1000, "k_streams": k % 1000, "N": n, "bytes": v})).collect::<Vec<_>>()}));
+        for (shape, ns) in [(0usize, &ns2), (1, &ns_wide)] {
+            for k in (1..=8usize).chain([102, 103, 104, 202, 203]) {
+                for w in ns.windows(2) {
+                    if let (Some(a), Some(b)) = (t.get(&(shape * 1000 + k, w[0])), t.get(&(shape * 1000 + k, w[1]))) {
+                        if (a - b).abs() > 256 {
+                            rep.violation(format!("ladder growth shape {} k={} N={}..{}", shape, k, w[0], w[1]), format!("extra heap of a traversal over k={} inputs is {} bytes for N={} but {} for N={} (ladder shape {})", k, a, w[0], b, w[1], shape), json!({"ladder_n": w[1], "k": k, "shape": shape}));
+                        }
                     }
                 }
             }
